@@ -452,6 +452,7 @@ def run_case(case: dict, workdir: str, ext_so: str | None) -> dict:
         b = Builder(cfg, root, case.get("compiled_as", "pyc"), ext_so, case.get("xc_as", "pyd")).build()
         os.environ["C15_SENTINEL"] = b.sentinel
         os.environ["C15_PATHMUT"] = cfg.get("pathmut", "none")
+        os.environ["C15_WALK"] = cfg.get("walk", "none")
         os.environ["C15_CFAULTS"] = json.dumps(b.cfaults)
         rec = Recorder(cfg, root)
         path_before_case = list(sys.path)
